@@ -307,7 +307,7 @@ def check(tier, seed, procs):
             'cancellation is Task.cancel() issued by a controller task at every step boundary; bodies only yield, return or raise',
             'no wake-up order or liveness beyond "the returned capacity can be acquired again" is demanded (the statement fixes none)',
         ],
-        'vacuous': vac,
+        'vacuous': None if violations else vac,  # a reported violation is itself evidence that the run was not vacuous
     }
 
 
